@@ -104,6 +104,32 @@ func c11eval(r *vx.R, c c11case) {
 			r.Violation("mem:"+c.Op+":wrong-result", fmt.Sprintf("%s returned a wrong result with %s at the %s of mapped memory (err=%v)", c.Op, c.Arg, c.Side, oerr), c)
 		}
 		shape += fmt.Sprintf(":pt%d:aad%d:n%d:t%d", c.PtLen, c.AadLen, c.NLen, c.Tag)
+	case "open-short":
+		// misuse: a ciphertext shorter than its tag, flush against a guard page before (head) or after (tail), with a nil
+		// and with a roomy destination: an error or a Go panic is fine, touching memory outside the ciphertext is not
+		a, _, err := newAEAD(key, c.NLen, c.Tag)
+		if err != nil {
+			r.Add("unsupported_on_this_path", 1)
+			return
+		}
+		nonce := fillLen("nonce", c.NLen)
+		aad := fillLen("aad", c.AadLen)
+		ct := place("in", "ct", c.Side, "ct", vx.Fill("c11shortct", c.SrcLen))
+		for _, roomy := range []bool{false, true} {
+			var dst []byte
+			if roomy {
+				dst = make([]byte, 3, 64)
+			}
+			var out []byte
+			var oerr error
+			kind, msg := vx.TryFault(func() { out, oerr = a.Open(dst, nonce, ct, aad) })
+			if kind == "fault" {
+				r.Violation(fmt.Sprintf("mem:open:fault:short-ciphertext-at-%s", c.Side), fmt.Sprintf("Open of a %d-byte ciphertext (tag size %d, roomy dst %v) touched memory outside it: %s", c.SrcLen, c.Tag, roomy, msg), c)
+			} else if kind == "" && oerr == nil {
+				r.Violation("mem:open:accepts-short-ciphertext", fmt.Sprintf("Open accepted a %d-byte ciphertext with a %d-byte tag and returned %d bytes", c.SrcLen, c.Tag, len(out)), c)
+			}
+		}
+		shape += fmt.Sprintf(":ct%d:t%d", c.SrcLen, c.Tag)
 	case "encrypt", "decrypt":
 		blk, _ := sm4.NewCipher(key)
 		src0 := vx.Fill("c11src", 16)
@@ -197,7 +223,7 @@ func b2i(b bool) int {
 }
 
 func TestVX_C11(t *testing.T) {
-	r := vx.Begin("C11", gcmPart("guard-public"), "every slice argument of Seal/Open (plaintext/ciphertext, aad, nonce, dst) and of Encrypt/Decrypt/NewCipher placed so that it ends exactly at (tail) or starts exactly after (head) an inaccessible page (mmap + PROT_NONE, faults turned into panics carrying Addr()): plaintext/ciphertext lengths 0..1100, aad lengths 0..1100, nonce lengths 1..300, tags 12..16; misuse: Encrypt/Decrypt with len(src) or len(dst) in 0..15 flush against a guard page and between canaries. Oracle: no fault, no damaged canary; valid calls still equal the reference; misuse ends in a Go panic")
+	r := vx.Begin("C11", gcmPart("guard-public"), "every slice argument of Seal/Open (plaintext/ciphertext, aad, nonce, dst) and of Encrypt/Decrypt/NewCipher placed so that it ends exactly at (tail) or starts exactly after (head) an inaccessible page (mmap + PROT_NONE, faults turned into panics carrying Addr()): plaintext/ciphertext lengths 0..1100, aad lengths 0..1100, nonce lengths 1..300, tags 12..16; misuse: Encrypt/Decrypt with len(src) or len(dst) in 0..15 flush against a guard page and between canaries; Open of every ciphertext shorter than the tag (tags 12..16) flush against a guard page before and after, with nil and roomy dst. Oracle: no fault, no damaged canary; valid calls still equal the reference; misuse ends in a Go panic")
 	defer r.End()
 	selfCheck()
 	if raw, ok := vx.Replay(gcmPart("guard-public")); ok {
@@ -246,6 +272,13 @@ func TestVX_C11(t *testing.T) {
 			run(c11case{Op: op, Arg: "dst", Side: side})
 		}
 		run(c11case{Op: "newcipher", Arg: "key", Side: side})
+	}
+	for tag := 12; tag <= 16; tag++ {
+		for l := 0; l < tag; l++ {
+			for _, side := range []string{"head", "tail"} {
+				run(c11case{Op: "open-short", Arg: "ct", Side: side, SrcLen: l, Tag: tag, NLen: 12, AadLen: 3})
+			}
+		}
 	}
 	for l := 0; l <= 15; l++ {
 		for _, op := range []string{"short-encrypt", "short-decrypt"} {
